@@ -297,8 +297,8 @@ def no_trace(op, kind, version, ni, menu=None):
 def _tmpl(names, alg, length, mask, extra, tag=None):
     A = enums.AttributeType
     attrs = []
-    for nm in names:
-        attrs.append(P.name_attr(nm))
+    for i, nm in enumerate(names):
+        attrs.append(P.name_attr(nm, i))
     if alg is not None:
         attrs.append(P.AF.create_attribute(A.CRYPTOGRAPHIC_ALGORITHM, alg))
     if length is not None:
